@@ -141,7 +141,7 @@ def _replay(cases):
         me = need(c["prog"])
         base = need(c["base"]) if c["kind"] == "viol" else me
         refs.append((me, base))
-    results = typing_pool.compile_all([(i, {"m.emb": t}, "m.emb") for i, t in enumerate(texts)])
+    results = typing_pool.compile_all([(i, typing_render.files(t), "m.emb") for i, t in enumerate(texts)])
     records = []
     for tid, (c, (me, base)) in enumerate(zip(cases, refs)):
         r = results[me[0]]
@@ -321,7 +321,7 @@ def run(chk, only=None):
 
 def _observe(rec, emb, base_emb):
     """Re-run the real compiler on a stored case (replay)."""
-    r, rb = typing_pool.compile_all([(0, {"m.emb": emb}, "m.emb"), (1, {"m.emb": base_emb}, "m.emb")])
+    r, rb = typing_pool.compile_all([(0, typing_render.files(emb), "m.emb"), (1, typing_render.files(base_emb), "m.emb")])
     rec = dict(rec)
     rec["obs"] = {"acc": r["acc"], "exc": r["exc"],
                   "errs": [{"l1": e["l1"], "l2": e["l2"], "syn": e["syn"], "main": e["main"]} for e in r["errs"]]}
